@@ -79,7 +79,7 @@ Print Assumptions C06_model_outcomes_pass_clause_6.
 (* non-vacuity *)
 Example C06_example :
   let script := fun (c : N) (st : stage) => match c, st with 1, SBody => VQuar | 2, SRcpt 7 => VReject | _, _ => VNone end in
-  let cfg := {| g_checks := [1]; s_checks := []; blocks := [([2], 5); ([1; 3], 6)]; dmarc := 0 |} in
+  let cfg := {| g_checks := [1]; s_checks := []; blocks := [([2], 5); ([1; 3], 6)]; dmarc := 0; mod_fail := [] |} in
   let o := run_message script cfg [(7, 0); (8, 1); (9, 0)] in
   o_start o = true /\ o_rcpts o = [false; true; false] /\
   o_body o = Some (Some [(6, [8], true)]).
